@@ -970,3 +970,22 @@ Print Assumptions gen_q_gen_one_legs.
 Print Assumptions gen_q_get_one_vertices.
 Print Assumptions gen_q_get_one_vertices_rejects.
 Print Assumptions gen_q_get_one_vertices_star.
+
+(* the dependency test in closed form, with no hypothesis on get_one_vertices left: on every graph with three or more legs and strings of one length *)
+Lemma take_ones_heads_in rest g : In g (map (@hd pstr (@nil pl)) (take_ones rest)) -> In g (concat rest).
+Proof.
+  induction rest as [|x r IH]; cbn [take_ones]; [intros []|]. destruct (length x =? 1)%nat eqn:E; [|intros []]. cbn [map concat]. intros [Hg|Hg]; apply in_or_app.
+  - left. destruct x as [|a [|b x]]; try discriminate E. subst g. left. reflexivity.
+  - right. exact (IH Hg).
+Qed.
+Theorem gen_q_check_dependency_closed c rest lighting n : (2 <= length rest)%nat -> SameLen n (concat (c :: rest)) -> length lighting = n ->
+  py_Q_check_dependency_one_leg (c :: rest) lighting =
+    if existsb (dep_test (concat (c :: rest)) lighting) (map (@hd pstr (@nil pl)) (take_ones rest)) then FRaised (EUser "DependentException") else FRet tt.
+Proof.
+  intros H HV Hl. apply (gen_q_check_dependency (c :: rest) lighting n _ (gen_q_get_one_vertices c rest H) HV); [|exact Hl].
+  intros g Hg. apply HV. cbn [concat]. apply in_or_app. right. exact (take_ones_heads_in rest g Hg).
+Qed.
+Theorem gen_q_check_dependency_small legs lighting : (length legs < 3)%nat -> py_Q_check_dependency_one_leg legs lighting = FRaised (EUser "MorphFactoryException").
+Proof. intros H. unfold py_Q_check_dependency_one_leg. rewrite (gen_q_get_one_vertices_rejects legs H). reflexivity. Qed.
+Print Assumptions gen_q_check_dependency_closed.
+Print Assumptions gen_q_check_dependency_small.
